@@ -65,7 +65,7 @@ func (s *ISchema) addType(name string, schema *ISchema, rootFile *fs.File, begin
 	if _, ok := s.types[name]; ok {
 		panic(errs.ErrDuplicationOfNameOfTypes.F(name))
 	}
-	s.types[name] = Type{schema, rootFile, begin}
+	s.types[name] = Type{Schema: schema, RootFile: rootFile, Begin: begin, Seq: len(s.types)}
 }
 
 func (s *ISchema) AddType(n string, t Type) {
